@@ -120,10 +120,30 @@ func solveObligation(c *Ctx, o *Obligation, idx int, opts solveOpts) {
 			return
 		}
 	}
-	r := runSolver("z3-new", []string{fmt.Sprintf("-T:%d", s1), "smt.array.extensional=false"}, z3file, stage1)
-	if r.verdict != "unsat" {
-		// a "sat" without extensionality is not a counterexample; ask again in the full theory
+	// stage 1: the full theory and the theory without array extensionality side by side (a "sat" without
+	// extensionality is not a counterexample and is ignored)
+	var r solverRun
+	if o.Canary {
 		r = runSolver("z3-new", []string{fmt.Sprintf("-T:%d", s1)}, z3file, stage1)
+	} else {
+		ctx1, cancel1 := context.WithCancel(context.Background())
+		res1 := make(chan solverRun, 2)
+		go func() { res1 <- runSolverCtx(ctx1, "z3-new", []string{fmt.Sprintf("-T:%d", s1)}, z3file, stage1) }()
+		go func() {
+			res1 <- runSolverCtx(ctx1, "z3-new", []string{fmt.Sprintf("-T:%d", s1), "smt.array.extensional=false"}, z3file, stage1)
+		}()
+		for k := 0; k < 2; k++ {
+			rr := <-res1
+			noext := strings.Contains(rr.solver, "extensional=false")
+			if rr.verdict == "unsat" || (rr.verdict == "sat" && !noext) {
+				r = rr
+				break
+			}
+			if !noext {
+				r = rr
+			}
+		}
+		cancel1()
 	}
 	final := r
 	if r.verdict != "unsat" && r.verdict != "sat" && !o.Canary {
@@ -394,7 +414,7 @@ func solveAll(jobs []job, opts solveOpts, workers int) {
 	}
 	if os.Getenv("GOVC_NOINC") == "" {
 		tp := time.Now()
-		runPass(false, true, 2500, "no-ext")
+		runPass(false, true, 1500, "no-ext")
 		runPass(false, false, 2500, "full")
 		t1 := time.Since(tp).Seconds()
 		runPass(true, false, 1500, "qf-slice")
